@@ -128,8 +128,44 @@ def grep_gate():
     return bad
 
 
+def _proof_cache_key(rel):
+    """the property file's text and the newest .v/.vo of the development (anything rebuilt or edited invalidates)"""
+    h = hashlib.sha256(open(os.path.join(COQ, rel), "rb").read())
+    newest = 0.0
+    for root, _, fs in os.walk(COQ):
+        for f in fs:
+            if f.endswith(".v") or (f.endswith(".vo") and "Properties" not in root):
+                newest = max(newest, os.path.getmtime(os.path.join(root, f)))
+    h.update(repr(newest).encode())
+    return h.hexdigest()
+
+
 def check_property_file(prop):
-    """re-compile Properties/<prop>.v from scratch; return dict with obligations/discharged/axioms"""
+    """re-compile Properties/<prop>.v from scratch; return dict with obligations/discharged/axioms.
+    With VERIF_REUSE_PROOFS=1 (set only by seedtest.py, whose runs differ in /repo alone: the Coq side does not read
+    /repo) the result of the last full re-check of the very same development is reused."""
+    rel = "Properties/%s.v" % prop
+    cache = os.path.join(BUILD, "proofcache", prop + ".json")
+    if os.environ.get("VERIF_REUSE_PROOFS") == "1" and os.path.exists(cache):
+        try:
+            c = json.load(open(cache))
+            if c.get("key") == _proof_cache_key(rel) and not c["res"]["errors"]:
+                c["res"]["reused"] = True
+                return c["res"]
+        except Exception:
+            pass
+    res = _check_property_file(prop)
+    try:
+        os.makedirs(os.path.dirname(cache), exist_ok=True)
+        with open(cache + ".%d" % os.getpid(), "w") as f:
+            json.dump({"key": _proof_cache_key(rel), "res": res}, f)
+        os.replace(cache + ".%d" % os.getpid(), cache)
+    except Exception:
+        pass
+    return res
+
+
+def _check_property_file(prop):
     rel = "Properties/%s.v" % prop
     src = open(os.path.join(COQ, rel)).read()
     code = strip_coq_comments(src)
